@@ -8,7 +8,9 @@
  *   fe <formula> <ne> (name c v | name l n (t v)*n)*ne <m> x*m     FunctionEvolution
  *   solve <dyn> <mSub> <iterMax> <ppolicy> <nu> <minTs> <maxTs> <minF> <maxF> <ti> <te> <na> (kind factor at)*na
  *   cc <ndv> <eeps> <seps> <t> <dt> <n> du*n r*n u1*n s1*ndv <nc> (g|f comp active (c v | l k (t v)*k))*nc
- *   mt ...  (see run_mtest) a complete MTest run on the mock linear behaviour
+ *   mt ...  (see mtrun.hxx) a complete MTest run on the mock behaviour, state read in memory
+ *   mx ...  (see fullrun.hxx) a complete MTest problem through the public interface of mtest::MTest
+ *           (hypothesis, setters, named constraints with options, events, execute()), read from the result file
  */
 #include <iostream>
 #include <map>
@@ -24,6 +26,7 @@
 #include "C48/mock.hxx"
 #include "C48/mockbehaviour.hxx"
 #include "C48/mtrun.hxx"
+#include "C48/fullrun.hxx"
 
 using namespace verif48;
 
@@ -204,6 +207,8 @@ int main() {
         ans = op_cc(tk);
       } else if (op == "mt") {
         ans = op_mt(tk);
+      } else if (op == "mx") {
+        ans = op_mx(tk);
       } else {
         ans = "bad-op";
       }
